@@ -116,7 +116,11 @@ Proof.
   apply byte_at_nth in B1. destruct B1 as [_ B1].
   match type of Hd with (if ?c then _ else _) = _ => destruct c eqn:Hlen; [discriminate|] end.
   match type of Hd with bind ?X _ = _ => destruct X as [ty|]; cbn [bind] in Hd; [|discriminate] end.
-  injection Hd as _ <-. apply Nat.ltb_ge in Hlen. lia.
+  apply Nat.ltb_ge in Hlen.
+  match type of Hlen with
+  | (?a + ?b + ?c + ?e <= _)%nat => set (A := a) in *; set (B := b) in *; set (C := c) in *; set (E := e) in *
+  end.
+  injection Hd as _ <-. lia.
 Qed.
 
 Theorem parse_cells_bounded : forall n d size raws, parse_cells n d size = Ok raws ->
@@ -128,4 +132,52 @@ Proof.
     destruct (parse_cells n (skipn j d) size) as [r|] eqn:Hr; cbn [bind] in Hp; [|discriminate].
     injection Hp as <-. apply deserialize_cell_consumes in Hc.
     destruct (IH _ _ _ Hr) as [Hl Hn]. rewrite skipn_length in Hl. cbn [length]. split; lia.
+Qed.
+
+(* ------------------------------------------------------------------ *)
+(* 3. an accepted header has room for the lists it announces           *)
+(* ------------------------------------------------------------------ *)
+Lemma read_uints_length d w : forall n i, length (read_uints d i w n) = n.
+Proof. induction n as [|n IH]; intro i; cbn [read_uints length]; [reflexivity|]. rewrite IH. reflexivity. Qed.
+
+Lemma hdr_rest_bounded d reach idx crc cache size h :
+  hdr_rest d reach (idx, crc, cache, size) = Ok h -> (4 <= length d)%nat ->
+  (N.to_nat (h_tot h) <= length d)%nat /\ (length (h_root_list h) <= length d)%nat /\
+  match h_index h with Some ix => (length ix <= length d)%nat | None => True end.
+Proof.
+  intros Hd H4. unfold hdr_rest in Hd. cbv beta iota zeta in Hd.
+  hstep Hd T1.
+  destruct (byte_at d 5) as [offb|] eqn:B5; cbn [bind] in Hd; [|discriminate].
+  hstep Hd T2.
+  set (cells := of_be (slice d 6 (6 + size))) in *.
+  set (roots := of_be (slice d (6 + size) (6 + 2 * size))) in *.
+  set (absent := of_be (slice d (6 + 2 * size) (6 + 3 * size))) in *.
+  set (i1 := (6 + 3 * size + N.to_nat offb)%nat) in *.
+  set (tot := of_be (slice d (6 + 3 * size) i1)) in *.
+  set (off := N.to_nat offb) in *.
+  apply Nat.eqb_neq in T2.
+  destruct reach, idx, crc;
+    repeat (cbv beta iota in Hd;
+            first [ let T := fresh "T" in hstep Hd T | progress cbn [bind] in Hd ]);
+    injection Hd as <-; cbn [h_tot h_root_list h_index]; rewrite ?read_uints_length; cbn [length];
+    repeat match goal with T : (_ <? _)%Z = false |- _ => apply Z.ltb_ge in T end;
+    repeat match goal with T : (_ =? _)%nat = false |- _ => apply Nat.eqb_neq in T end;
+    (split; [lia|]); (split; [try lia; nia|]); try exact I; try lia; nia.
+Qed.
+
+Theorem header_bounded : forall d h, deserialize_boc_header d = Ok h ->
+  (N.to_nat (h_tot h) <= length d)%nat /\ (length (h_root_list h) <= length d)%nat /\
+  match h_index h with Some ix => (length ix <= length d)%nat | None => True end.
+Proof.
+  intros d h. rewrite header_unfold. intro Hd.
+  hstep Hd T0. apply Nat.ltb_ge in T0.
+  destruct (bytes_eqb (firstn 4 d) boc_magic).
+  - destruct (byte_at d 4) as [fb|]; cbn [bind] in Hd; [|discriminate].
+    exact (hdr_rest_bounded _ _ _ _ _ _ _ Hd T0).
+  - destruct (bytes_eqb (firstn 4 d) boc_magic_idx).
+    + destruct (byte_at d 4) as [fb|]; cbn [bind] in Hd; [|discriminate].
+      exact (hdr_rest_bounded _ _ _ _ _ _ _ Hd T0).
+    + destruct (bytes_eqb (firstn 4 d) boc_magic_idx_crc); [|discriminate Hd].
+      destruct (byte_at d 4) as [fb|]; cbn [bind] in Hd; [|discriminate].
+      exact (hdr_rest_bounded _ _ _ _ _ _ _ Hd T0).
 Qed.
